@@ -118,7 +118,9 @@ class ComponentsFileSystemFinder(BaseFinder):
             path = path.removeprefix(prefix)
         path = safe_join(root, path)
 
-        if os.path.exists(path) and self._is_path_valid(path):
+        # NOTE: Same as in `list()`, the path is validated relative to the root, so that both agree
+        #       and so that the result does not depend on where the root directory is located.
+        if os.path.exists(path) and self._is_path_valid(os.path.relpath(path, root)):
             return path
         return None
 
